@@ -366,7 +366,8 @@ def rule_overallform(ctx):
     t = main[0].term
     need(t.op == "bin" and t.a[0] == "/", R, "overall_accuracy is not a ratio")
     num, den = t.a[1], t.a[2]
-    yield ob(R, f, "melody.overall_accuracy:per-frame", den.op == "call" and call_name(den) == "builtins.len" and den.a[1][0].op == "param" and den.a[1][0].a[0] == "ref_voicing", "normalised by the number of frames")
+    cfd = count_form(den)
+    yield ob(R, f, "melody.overall_accuracy:per-frame", cfd is not None and cfd[0] in ("len", "size") and cfd[1].op == "param" and cfd[1].a[0] in ("ref_voicing", "est_voicing", "ref_cent", "est_cent"), "normalised by the number of frames")
     terms = []
 
     def summands(x):
